@@ -270,6 +270,7 @@ func (v *ErrorScopeVariables) Add(s context.Scope, name string, val value.Value)
 		return errors.WithStack(err)
 	}
 	v.ctx.Object.Header.Add(match[1], val.String())
+	v.ctx.Object.Assign(match[1])
 	return nil
 }
 
